@@ -7,6 +7,7 @@ import (
 	"os"
 	"path/filepath"
 	"sort"
+	"strings"
 	"testing"
 
 	"github.com/ethereum/go-ethereum/crypto"
@@ -50,6 +51,11 @@ func replayCorpus(t *testing.T, run *emit.Run) {
 		case "queue-key-of-another-chain":
 			scriptedKeyOfAnotherChain(t, run, true)
 			scriptedKeyOfAnotherChain(t, run, false)
+		case "queue-pubkey-encoding-alias":
+			scriptedPubkeyAlias(t, run, false)
+			scriptedPubkeyAlias(t, run, true)
+		case "batch-compass-redeploy":
+			scriptedRedeploy(t, run)
 		case "batch-more-than-100-confirms":
 			runBigSetHistory(t, run, true)
 		default:
@@ -128,7 +134,7 @@ func scriptedReassignWitness(t *testing.T, run *emit.Run) {
 		{Id: id, QueueTypeName: turnstoneQueue(chain), Signature: sig, SignedByAddress: h.reg[0][0].addr}}); err != nil {
 		t.Fatalf("witness: signature refused: %v", err)
 	}
-	h.regAt[fmt.Sprintf("%d/%d", id, 0)] = hex.EncodeToString(h.keyAddr(0).Bytes())
+	h.regAt[fmt.Sprintf("%d/%d", id, 0)] = hex.EncodeToString(h.reg[0][0].key)
 	h.replay = append(h.replay, map[string]any{"op": "witness: register, put logic call, validator 0 signs"})
 	h.observe("witness: sign")
 	if h.viol {
@@ -195,7 +201,7 @@ func scriptedKeyOfAnotherChain(t *testing.T, run *emit.Run, rotated bool) {
 			}
 		}
 		h.step(fmt.Sprintf("C06.QSign %d %d %d %d (C06.SOver %d %s)", v, qchainID(chain), id, idOf(h.addrIDs, addr),
-			idOf(h.keyIDs, hex.EncodeToString(h.keyAddr(key).Bytes())), ver.coq), c,
+			h.ethID(h.keyAddr(key)), ver.coq), c,
 			map[string]any{"op": "sign", "validator": v, "chain": chain, "id": id, "named_address": addr, "signing_key": key, "signed": "current",
 				"bytes": hex.EncodeToString(ver.bytes), "signature": hex.EncodeToString(sig)})
 	}
@@ -204,5 +210,103 @@ func scriptedKeyOfAnotherChain(t *testing.T, run *emit.Run, rotated bool) {
 		sign(0, 4, h.keyAddr(4).Hex()) // the key it has registered for chain-b
 	}
 	sign(1, 1, h.reg[1][1].addr)
+	h.finish()
+}
+
+// scriptedPubkeyAlias replays the witness of Properties.C06.key_unique_up_to_encoding_refuted on the real keepers: two
+// validators hold ONE EVM key at the same time (handover = false: validator 1 registers it under another spelling of the
+// address and a left-padded Pubkey blob while validator 0 still has it; handover = true: validator 0 has moved to a fresh
+// key in between) and both sign the same message with it.
+func scriptedPubkeyAlias(t *testing.T, run *emit.Run, handover bool) {
+	h := newQHist(t, run)
+	chain := qchains[0]
+	a := h.keyAddr(0)
+	h.opRegister(0, []acctRow{{chain: chain, addr: a.Hex(), key: a.Bytes()}})
+	em := &evmtypes.Message{ChainReferenceID: chain, TurnstoneID: "compass-" + chain, Assignee: h.e.vals[2].String(), AssigneeRemoteAddress: h.keyAddr(2).Hex(),
+		Action: &evmtypes.Message_SubmitLogicCall{SubmitLogicCall: &evmtypes.SubmitLogicCall{HexContractAddress: "0x0000000000000000000000000000000000000001",
+			Payload: []byte{5}, SenderAddress: []byte("alice"), Deadline: 1700001000}}}
+	kind, body, _ := describe(em)
+	id, err := h.e.cons.PutMessageInQueue(h.e.ctx, turnstoneQueue(chain), em, &consensus.PutOptions{RequireSignatures: true})
+	if err != nil {
+		t.Fatal(err)
+	}
+	h.items = append(h.items, id)
+	h.chainOf[id] = chain
+	h.step(fmt.Sprintf("C06.QPut %d %d %d %d false", qchainID(chain), kind, idOf(h.bodyIDs, body), idOf(h.relIDs, lowerOf(em.AssigneeRemoteAddress))), 0,
+		map[string]any{"op": "put", "chain": chain, "kind": kind, "id": id, "needs_estimate": false, "relayer": em.AssigneeRemoteAddress, "payload": "05"})
+	ver := h.vers[id][len(h.vers[id])-1]
+	sign := func(v int, addr string) {
+		sig, err := crypto.Sign(crypto.Keccak256(append([]byte(evmkeeper.SignaturePrefix), ver.bytes...)), h.keys[0])
+		if err != nil {
+			t.Fatal(err)
+		}
+		regNow, found := h.registeredKey(v, chain, addr)
+		err = h.e.cons.AddMessageSignature(h.e.ctx, h.e.vals[v], []*consensustypes.ConsensusMessageSignature{
+			{Id: id, QueueTypeName: turnstoneQueue(chain), Signature: sig, SignedByAddress: addr}})
+		c := classOf(err)
+		if c == 50 {
+			t.Fatalf("AddMessageSignature: %v", err)
+		}
+		if err == nil && found {
+			h.regAt[fmt.Sprintf("%d/%d", id, v)] = hex.EncodeToString(regNow)
+		}
+		h.step(fmt.Sprintf("C06.QSign %d %d %d %d (C06.SOver %d %s)", v, qchainID(chain), id, idOf(h.addrIDs, addr), h.ethID(a), ver.coq), c,
+			map[string]any{"op": "sign", "validator": v, "chain": chain, "id": id, "named_address": addr, "signing_key": 0, "signed": "current",
+				"bytes": hex.EncodeToString(ver.bytes), "signature": hex.EncodeToString(sig)})
+	}
+	sign(0, a.Hex())
+	if handover {
+		n := h.keyAddr(4)
+		h.opRegister(0, []acctRow{{chain: chain, addr: n.Hex(), key: n.Bytes()}})
+	}
+	other := strings.ToLower(a.Hex())
+	h.opRegister(1, []acctRow{{chain: chain, addr: other, key: append(make([]byte, 12), a.Bytes()...)}})
+	sign(1, other)
+	h.finish()
+}
+
+// scriptedRedeploy: a batch is open and confirmed by two validators when a new compass (another compass id) is activated
+// for its chain.  The checkpoint covers the compass id and ConfirmBatch verifies against the current one: the module has to
+// renew the batch's bytes to sign and drop the confirmations (BRebody in the model).  On a tree that does not, the history
+// ends with the known finding C06:compass-redeploy-keeps-open-batch-confirms; on one that does, a confirmation over the old
+// checkpoint is refused, confirmations over the new one are accepted, and the probe result switches compass redeploys on in
+// the generated histories.
+func scriptedRedeploy(t *testing.T, run *emit.Run) {
+	h := newBHist(t, run)
+	h.opBuild()
+	n := h.nonces[0]
+	h.confirmAs(0, n, true, true)
+	h.confirmAs(1, n, true, true)
+	old := h.vers[n][len(h.vers[n])-1]
+	h.opRedeploy(true) // same compass id again: nothing may change
+	if len(h.vers[n]) != 1 {
+		t.Fatalf("re-activation with the same compass id changed the batch")
+	}
+	h.opRedeploy(false)
+	redeployRefreshes = !h.dead
+	run.Count("redeploy-probe", fmt.Sprintf("open batches renewed: %v", redeployRefreshes))
+	if !h.dead {
+		// validator 2 still signs the old checkpoint (refused), then the new one; validator 0 confirms again
+		sgb, err := types.NewEthereumSignature(old.cp, h.keys[2])
+		if err != nil {
+			t.Fatal(err)
+		}
+		_, err = h.ms.ConfirmBatch(h.ctx, &types.MsgConfirmBatch{
+			Nonce: n, TokenContract: h.token.GetAddress().Hex(), EthSigner: h.keyAddr(2).Hex(), Orchestrator: h.accs[2].String(), Signature: hex.EncodeToString(sgb),
+			Metadata: valsettypes.MsgMetadata{Creator: h.accs[2].String(), Signers: []string{h.accs[2].String()}},
+		})
+		c := confirmClass(err)
+		if c == 50 {
+			t.Fatalf("ConfirmBatch: %v", err)
+		}
+		if err == nil {
+			h.regAt[fmt.Sprintf("%d/%d", n, 2)] = h.regAddr[2]
+		}
+		a := h.keyAddr(2)
+		h.step(fmt.Sprintf("C06.BCnf 2 %d 1 %d (C06.COver %d %s)", n, idOf(h.addrIDs, lower(a)), idOf(h.addrIDs, lower(a)), old.coq), c,
+			map[string]any{"op": "confirm", "validator": 2, "nonce": n, "signed": "checkpoint of the previous compass", "signature": hex.EncodeToString(sgb)})
+		h.confirmAs(2, n, true, true)
+		h.confirmAs(0, n, true, true)
+	}
 	h.finish()
 }
